@@ -366,7 +366,7 @@ func runC11(pl *plan.Plan, out *plan.Outcome) {
 	})
 	res := env.Run()
 	if res != "done" && out.Trouble == "" {
-		out.Trouble = "run ended: " + res
+		env.runEnded(res, out)
 		return
 	}
 	_ = neighbourDone
